@@ -147,8 +147,9 @@ def run_mc(pid, tier, workdir):
     """Run the design-level models of a property.  A failure here is a defect of the model (or of the
     property's reading), never of the code: it is reported as a tool error, not as a violation."""
     total = {'states': 0, 'transitions': 0, 'models': []}
-    if os.environ.get('VERIF_TRACES_ONLY'):
-        # developer switch for seed sweeps of the trace layer (the models do not depend on the seed)
+    if os.environ.get('VERIF_TRACES_ONLY') or os.environ.get('VERIF_SKIP_MC'):
+        # developer switches for seed sweeps of the trace layer (the models do not depend on the seed);
+        # VERIF_SKIP_MC keeps the replay of model behaviours into the code (direction B)
         return total
     models = list(PROPS[pid].get('mc', []))
     if tier == 'thorough' and pid in ('C03', 'C07', 'C11', 'C13') and not any(m == 'MC_System' for m, _ in models):
